@@ -31,6 +31,7 @@ def main():
     wt = f"/tmp/seed_{pid}_{name}_{os.getpid()}"
     run(["git", "-C", "/repo", "worktree", "add", "-f", "--detach", wt, "HEAD"])
     out = {"pid": pid, "src": src}
+    c = None
     try:
         r = run(["git", "-C", wt, "apply", os.path.abspath(os.path.join(src, "patch.diff"))])
         out["applies"] = r.returncode == 0
@@ -117,7 +118,13 @@ def main():
         except Exception:
             pass
         # restore evidence produced against the mutated tree
-        shutil.rmtree(os.path.join(ROOT, "evidence", "replays"), ignore_errors=True)
+        # (only the replay files of this run: other checks may be running and own the rest of the directory)
+        for l in (c.stdout.splitlines() if c is not None else []):
+            if l.startswith("VIOLATION") and "replay=" in l:
+                try:
+                    os.remove(os.path.join(ROOT, l.split("replay=")[1].split()[0]))
+                except OSError:
+                    pass
     return 0
 
 
